@@ -76,6 +76,8 @@ def decorate(d, T, v):
                 c2 = d.pick(alts) if alts and d.pct(70) else fitted()
                 t['cons_steps'] = [c, c2]
                 c = {'c': 'and', 'ops': [c, c2]}
+            elif k not in ('SEQUENCEOF', 'SETOF') and not t.get('named') and d.pct(25):
+                t['cons_class'] = True
             t['cons'] = c
         elif k in ir.RECORD_KINDS and d.pct(35):
             rules = []
